@@ -85,6 +85,18 @@ def wordlist_clause(chk):
                     if rng.random() < 0.8 or len(ks) > 1:
                         alm = alm[:col] + ['-'] + alm[col:]
                     d[k] = d[k] + [toks, alm]
+        if 'tokens' not in d[0] and rng.random() < 0.35:
+            # the caller supplies the segmented words: nested lists, now and then with a segment in source/target notation
+            from lingpy.sequence.sound_classes import ipa2tokens
+            hi = d[0].index('ipa')
+            d[0] = d[0] + ['tokens']
+            for k in sorted(k for k in d if k != 0):
+                toks = ipa2tokens(d[k][hi])
+                if len(toks) >= 2 and rng.random() < 0.4:
+                    j = rng.randrange(len(toks))
+                    toks[j] = rng.choice(['h₂', '?', 'X']) + '/' + toks[j]
+                d[k] = d[k] + [toks]
+            chk.hist['source with a tokens column (nested lists)'] += 1
         if rng.random() < 0.4 and 'alignment' not in d[0]:
             # the header as callers write it: upper case, aliases of the namespace - it belongs to the caller just like the rows
             spell = {'doculect': ['DOCULECT', 'language', 'taxa', 'Taxon'], 'concept': ['CONCEPT', 'gloss', 'Concept'], 'ipa': ['IPA', 'Ipa'],
